@@ -47,6 +47,8 @@ IssueDecl(x, o) ==
   /\ Len(o.certs) = Len(x.keys)
   /\ \A i \in 1..Len(o.certs) : CertOk(o.certs[i]) /\ o.certs[i].pkey = x.keys[i]
   /\ TokenUniqueToSubject(o.certs)
+  \* ... also among all certificates of the client CA that exist: the ones issued earlier for version-1 subjects included
+  /\ ("elders" \in DOMAIN o => TokenUniqueToSubject(o.certs \o o.elders))
 
 -------------------------------------------------------------------------------
 ObsRecs == IF Family = "obs" THEN ndJsonDeserialize("obs_pki.ndjson") ELSE <<>>
